@@ -340,7 +340,7 @@ pub fn mcopy(""")),
         burn_funds(rt, burn_amount)?;
 
         state.check_balance_invariants""",
-      new="""        notify_pledge_changed(rt, &total_unlocked.neg())?;
+      new="""        notify_pledge_changed(rt, &total_unlocked.clone().neg())?;
         burn_funds(rt, total_unlocked)?;
         let _ = burn_amount;
 
@@ -645,13 +645,13 @@ pub fn mcopy(""")),
         }""", new="""        if let Err(e) = res {
             error!("OnSectorsTerminate event failed {}", e)
         }""", expect=r'market-failure-swallowed'),
- dict(id='C05-send-result-dropped', pid='C05', file='actors/miner/src/lib.rs',
+ dict(id='C03-notify-result-dropped', pid='C03', file='actors/miner/src/lib.rs',
       old="""    burn_funds(rt, penalty_total)?;
     // Update the total locked funds in the network.
     notify_pledge_changed(rt, &pledge_delta_total)?;""",
       new="""    burn_funds(rt, penalty_total)?;
     // Update the total locked funds in the network.
-    let _ = notify_pledge_changed(rt, &pledge_delta_total);""", expect=None),
+    let _ = notify_pledge_changed(rt, &pledge_delta_total);""", expect=r'notify-propagated:handle_proving_deadline'),
  # ---------------- C02
  dict(id='C02-power-at-precommit', pid='C02', file='actors/miner/src/lib.rs',
       old="""        burn_funds(rt, fee_to_burn)?;
@@ -728,4 +728,105 @@ pub fn mcopy(""")),
             ));
         }
 """, new="""""", expect=r'reward:payout<=prior-balance'),
+
+ # ---------------- behaviour-preserving refactors (must stay silent)
+ dict(id='R-C16-extract-timelock-helper', pid='C16', file='actors/paych/src/lib.rs',
+      old="""        if rt.curr_epoch() < sv.time_lock_min {
+            return Err(actor_error!(illegal_argument; "cannot use this voucher yet"));
+        }
+
+        if sv.time_lock_max != 0 && rt.curr_epoch() > sv.time_lock_max {
+            return Err(actor_error!(illegal_argument; "this voucher has expired"));
+        }
+""", new="""        check_time_locks(rt, &sv)?;
+""", expect=None,
+      extra=('actors/paych/src/lib.rs', """#[inline]
+fn find_lane<'a, BS>(""", """fn check_time_locks(rt: &impl Runtime, sv: &SignedVoucher) -> Result<(), ActorError> {
+    let now = rt.curr_epoch();
+    if now < sv.time_lock_min {
+        return Err(actor_error!(illegal_argument; "cannot use this voucher yet"));
+    }
+    if sv.time_lock_max != 0 && now > sv.time_lock_max {
+        return Err(actor_error!(illegal_argument; "this voucher has expired"));
+    }
+    Ok(())
+}
+
+#[inline]
+fn find_lane<'a, BS>(""")),
+ dict(id='R-C18-extract-writable-helper', pid='C18', file='actors/evm/src/interpreter/instructions/storage.rs',
+      old="""    if system.readonly {
+        return Err(ActorError::read_only("store called while read-only".into()));
+    }
+
+    system.set_storage(key, value)""", new="""    ensure_writable(system)?;
+
+    system.set_storage(key, value)""", expect=None,
+      extra=('actors/evm/src/interpreter/instructions/storage.rs', """#[inline]
+pub fn sstore(""", """fn ensure_writable(system: &System<impl Runtime>) -> Result<(), ActorError> {
+    if system.readonly {
+        return Err(ActorError::read_only("store called while read-only".into()));
+    }
+    Ok(())
+}
+
+#[inline]
+pub fn sstore(""")),
+ dict(id='R-C13-extract-confirm-helper', pid='C13', file='actors/miner/src/lib.rs',
+      old="""                if new_address != pending_address {
+                    return Err(actor_error!(
+                        illegal_argument,
+                        "expected confirmation of {} got {}",
+                        pending_address,
+                        new_address
+                    ));
+                }
+""", new="""                ensure_same_address(&new_address, &pending_address)?;
+""", expect=None,
+      extra=('actors/miner/src/lib.rs', """fn process_pending_worker(""", """fn ensure_same_address(new_address: &Address, pending_address: &Address) -> Result<(), ActorError> {
+    if new_address != pending_address {
+        return Err(actor_error!(
+            illegal_argument,
+            "expected confirmation of {} got {}",
+            pending_address,
+            new_address
+        ));
+    }
+    Ok(())
+}
+
+fn process_pending_worker(""")),
+ dict(id='R-C15-rename-and-reorder', pid=['C15', 'C03', 'C01'], file='actors/miner/src/lib.rs',
+      old="""        burn_funds(rt, burn_amount)?;
+        notify_pledge_changed(rt, &pledge_delta)?;
+
+        let state: State = rt.state()?;
+        state.check_balance_invariants(&rt.current_balance()).map_err(balance_invariants_broken)?;
+        Ok(())
+    }
+
+    fn withdraw_balance(""", new="""        notify_pledge_changed(rt, &pledge_delta)?;
+        let amount_to_burn = burn_amount;
+        burn_funds(rt, amount_to_burn)?;
+
+        let state: State = rt.state()?;
+        state.check_balance_invariants(&rt.current_balance()).map_err(balance_invariants_broken)?;
+        Ok(())
+    }
+
+    fn withdraw_balance(""", expect=None),
+ dict(id='R-C12-hoist-threshold-local', pid='C12', file='actors/multisig/src/lib.rs',
+      old="""    let threshold_met = txn.approved.len() as u64 >= st.num_approvals_threshold;
+    if threshold_met {""", new="""    let approvals = txn.approved.len() as u64;
+    let needed = st.num_approvals_threshold;
+    if approvals >= needed {""", expect=None),
+ dict(id='R-C06-early-return-style', pid='C06', file='actors/market/src/state.rs',
+      old="""        if amount.is_negative() {
+            return Err(actor_error!(illegal_state, "unlock negative amount: {}", amount));
+        }
+""", new="""        let negative = amount.is_negative();
+        if negative {
+            return Err(actor_error!(illegal_state, "unlock negative amount: {}", amount));
+        }
+""", expect=None),
 ]
